@@ -5,6 +5,7 @@ from .core import AnalysisError
 from .astutil import fold, try_fold, NotConstant, dotted, unparse
 
 
+_MISSING = object()
 _MUTATORS = {'setdefault', 'update', 'pop', 'popitem', 'clear', '__setitem__', '__delitem__', 'append', 'extend', 'insert', 'remove',
              'sort', 'reverse', 'add', 'discard', 'difference_update', 'intersection_update', 'symmetric_difference_update'}
 
@@ -237,6 +238,10 @@ class Facts:
             self._module_call(st.value, top)
         elif isinstance(st, ast.For):
             self._module_for(st, top)
+        elif isinstance(st, ast.AugAssign) and isinstance(st.target, ast.Name):
+            self._module_augassign(st, top)
+        elif isinstance(st, ast.Delete):
+            self._module_delete(st, top)
         elif isinstance(st, (ast.Import, ast.ImportFrom, ast.Pass, ast.AsyncFunctionDef)) or \
                 (isinstance(st, ast.Expr) and isinstance(st.value, ast.Constant)):
             pass
@@ -315,6 +320,80 @@ class Facts:
             return None
         return out
 
+    def _members_of_expr(self, arg):
+        """set of members an expression contributes to a set: a folded set / table name, TABLE.keys(), a folded collection; None"""
+        if isinstance(arg, ast.Name) and arg.id not in self.poison and arg.id in self.sets:
+            return set(self.sets[arg.id])
+        if isinstance(arg, ast.Name) and arg.id not in self.poison and arg.id in self.tables:
+            return set(self.tables[arg.id])
+        if (isinstance(arg, ast.Call) and isinstance(arg.func, ast.Attribute) and arg.func.attr == 'keys' and not arg.args
+                and isinstance(arg.func.value, ast.Name) and arg.func.value.id not in self.poison and arg.func.value.id in self.tables):
+            return set(self.tables[arg.func.value.id].keys())
+        if any(isinstance(n, ast.Name) and n.id in self.poison for n in ast.walk(arg)):
+            return None
+        v = try_fold(arg, self.consts)
+        if isinstance(v, (set, frozenset, list, tuple, dict)):
+            try:
+                return set(v)
+            except TypeError:
+                return None
+        return None
+
+    def _module_augassign(self, st, top):
+        """T |= {...} / S |= {...} / S -= {...} at module level."""
+        name = st.target.id
+        if name in self.poison or not self._known(name):
+            return
+        why = 'written by `{}`'.format(unparse(st).split('\n')[0][:70])
+        if isinstance(st.op, ast.BitOr) and dict.__contains__(self.tables, name):
+            sub = self._table_of_expr(st.value)
+            if sub is not None:
+                merged = dict(self.tables[name])
+                merged.update(sub)
+                self.tables[name] = merged
+                self.consts[name] = merged
+                self.modelled_stmts.add(id(top))
+                return
+        elif isinstance(st.op, (ast.BitOr, ast.Sub, ast.BitAnd)) and dict.__contains__(self.sets, name):
+            other = self._members_of_expr(st.value)
+            if other is not None:
+                cur = set(self.sets[name])
+                cur = cur | other if isinstance(st.op, ast.BitOr) else (cur - other if isinstance(st.op, ast.Sub) else cur & other)
+                self.sets[name] = cur
+                self.consts[name] = cur
+                self.modelled_stmts.add(id(top))
+                return
+        elif dict.__contains__(self.consts, name) and not dict.__contains__(self.tables, name) and not dict.__contains__(self.sets, name):
+            try:
+                v = fold(ast.BinOp(left=ast.Name(id=name, ctx=ast.Load()), op=st.op, right=st.value), self.consts)
+                self.consts[name] = v
+                return
+            except NotConstant:
+                pass
+        self.taint(name, why)
+
+    def _module_delete(self, st, top):
+        """del T[k] at module level (a deleted plain name is simply gone)."""
+        for t in st.targets:
+            if isinstance(t, ast.Subscript) and isinstance(t.value, ast.Name):
+                name = t.value.id
+                if name in self.poison or not self._known(name):
+                    continue
+                k_ = try_fold(t.slice, self.consts, default=_MISSING) if not isinstance(t.slice, ast.Slice) else _MISSING
+                if dict.__contains__(self.tables, name) and k_ is not _MISSING and k_ in self.tables[name]:
+                    merged = dict(self.tables[name])
+                    del merged[k_]
+                    self.tables[name] = merged
+                    self.consts[name] = merged
+                    self.modelled_stmts.add(id(top))
+                else:
+                    self.taint(name, 'written by `{}`'.format(unparse(st)[:60]))
+            elif isinstance(t, ast.Name):
+                if self._known(t.id):
+                    self.taint(t.id, 'deleted at module level')
+            else:
+                self._taint_stmt(st, 'written by `{}`'.format(unparse(st)[:60]))
+
     def _module_setitem(self, st, top):
         """T[k] = v at module level."""
         tgt = st.targets[0]
@@ -335,7 +414,7 @@ class Facts:
     def _module_for(self, st, top):
         """`for x in <literal sequence>: <simple statements>` at module level is unrolled (table registration loops)."""
         why = 'written inside a module-level loop that is not unrolled'
-        simple = (not st.orelse and all(isinstance(b, (ast.Assign, ast.Expr, ast.Pass)) for b in st.body)
+        simple = (not st.orelse and all(isinstance(b, (ast.Assign, ast.AugAssign, ast.Delete, ast.Expr, ast.Pass)) for b in st.body)
                   and not any(isinstance(n, (ast.Yield, ast.YieldFrom, ast.Await, ast.NamedExpr)) for b in st.body for n in ast.walk(b)))
         elems = None
         if simple:
@@ -398,6 +477,17 @@ class Facts:
         return True
 
     def _assign(self, name, value, st):
+        """NAME = <value> at module level.  A name the model already holds that is bound again is replaced - or, when the new value
+        is not folded, poisoned (the old value is no longer the content)."""
+        had = self._known(name)
+        if had:
+            for d in (self.consts, self.tables, self.sets, self.partials):
+                dict.pop(d, name, None)
+            self.closures.pop(name, None)
+        if not self._assign_value(name, value, st) and had:
+            self.taint(name, 'rebound to a value that is not folded')
+
+    def _assign_value(self, name, value, st):
         self.assign_nodes[name] = st
         try:
             v = fold(value, self.consts)
@@ -407,25 +497,25 @@ class Facts:
             elif isinstance(v, set):
                 self.sets[name] = v
             self.consts[name] = v
-            return
+            return True
         except NotConstant:
             pass
         if isinstance(value, ast.Call):
             if self._partial_binding(name, value, st) is not None:
-                return
+                return True
             if isinstance(value.func, ast.Name) and value.func.id in self.funcs and not value.keywords:
                 try:
                     args = [fold(a, self.consts) for a in value.args]
                 except NotConstant:
-                    return
+                    return False
                 self.closures[name] = Closure(name, value.func.id, args, st)
-                return
+                return True
         if isinstance(value, ast.Dict) or (isinstance(value, ast.Call) and isinstance(value.func, ast.Name) and value.func.id == 'dict'
                                            and 'dict' not in self.funcs):
             # dict whose values are names of bindings (mnemonic tables), possibly merged from other tables (`**T`)
             tbl = self._table_of_expr(value)
             if tbl is None:
-                return
+                return False
             self.tables[name] = tbl
             self.table_nodes[name] = st
             splats = [v.id for k, v in zip(value.keys, value.values) if k is None and isinstance(v, ast.Name)] \
@@ -433,6 +523,8 @@ class Facts:
             if splats:
                 self.table_update_order = getattr(self, 'table_update_order', {})
                 self.table_update_order.setdefault(name, []).extend(splats)
+            return True
+        return False
 
     def _partial_binding(self, name, value, st):
         """NAME = partial(func, k=v, ...) (directly, or through a factory whose body is `return partial(...)`): registers and returns
@@ -555,6 +647,33 @@ class Facts:
                 self.consts[tgt] = merged
                 self.modelled_stmts.add(id(top))
                 return
+        if call.func.attr == 'pop' and dict.__contains__(self.tables, tgt) and 1 <= len(call.args) <= 2 and not call.keywords:
+            k_ = try_fold(call.args[0], self.consts, default=_MISSING)
+            if k_ is not _MISSING:
+                merged = dict(self.tables[tgt])
+                if k_ in merged or len(call.args) == 2:
+                    merged.pop(k_, None)
+                    self.tables[tgt] = merged
+                    self.consts[tgt] = merged
+                    self.modelled_stmts.add(id(top))
+                    return
+        if call.func.attr in ('add', 'discard', 'remove') and dict.__contains__(self.sets, tgt) and len(call.args) == 1 and not call.keywords:
+            x_ = try_fold(call.args[0], self.consts, default=_MISSING)
+            if x_ is not _MISSING:
+                try:
+                    new_set = set(self.sets[tgt])
+                    if call.func.attr == 'add':
+                        new_set.add(x_)
+                    elif x_ in new_set or call.func.attr == 'discard':
+                        new_set.discard(x_)
+                    else:
+                        raise TypeError
+                    self.sets[tgt] = new_set
+                    self.consts[tgt] = new_set
+                    self.modelled_stmts.add(id(top))
+                    return
+                except TypeError:
+                    pass
         if call.func.attr != 'update':
             self.taint(tgt, why)
             return
@@ -562,20 +681,13 @@ class Facts:
             if not self._module_update(tgt, call, top):
                 self.taint(tgt, why)
         elif dict.__contains__(self.sets, tgt):
-            src = None
-            arg = call.args[0] if len(call.args) == 1 and not call.keywords else None
-            if isinstance(arg, ast.Name) and arg.id not in self.poison and arg.id in self.sets:
-                src = self.sets[arg.id]
-            elif (isinstance(arg, ast.Call) and isinstance(arg.func, ast.Attribute) and arg.func.attr == 'keys'
-                  and isinstance(arg.func.value, ast.Name) and arg.func.value.id not in self.poison and arg.func.value.id in self.tables):
-                src = set(self.tables[arg.func.value.id].keys())
-            elif arg is not None:
-                v = try_fold(arg, self.consts)
-                if isinstance(v, (set, frozenset, list, tuple, dict)):
-                    try:
-                        src = set(v)
-                    except TypeError:
-                        src = None
+            src = set() if call.args and not call.keywords else None
+            for arg in (call.args if src is not None else ()):
+                one = self._members_of_expr(arg)
+                if one is None:
+                    src = None
+                    break
+                src |= one
             if src is not None:
                 self.sets[tgt] = set(self.sets[tgt]) | src
                 self.consts[tgt] = self.sets[tgt]
